@@ -186,6 +186,11 @@ def build(case):
         A.elf_dynamic_fini.set(m, B.blocks[case["fini"]])
     if case.get("empty_alignment_table"):
         A.alignment.get_or_insert(m)        # the table exists, possibly without entries
+    for name in case.get("absent_tables", []):
+        # a module that does not carry the (empty) aux-data table at all: the rewrite has to create it when needed
+        t = m.aux_data.get(name)
+        if t is not None and not t.data and not (name == "alignment" and case.get("empty_alignment_table")):
+            del m.aux_data[name]
     if case.get("no_addr"):
         # a module that has not been laid out: no byte interval has an address
         for bi in m.byte_intervals:
@@ -229,7 +234,10 @@ def build_cfg(B, flat):
         nxt = next_code(i)
         if last[0] == "jmp":
             t = target_of(last[1])
-            add_edge(cfg, blk, t, ET.Branch, direct=True)
+            if d.get("unlabelled"):
+                cfg.add(gtirb.Edge(blk, t, None))      # an edge without a label is legal GTIRB: it is no fallthrough
+            else:
+                add_edge(cfg, blk, t, ET.Branch, direct=True)
         elif last[0] == "jcc":
             t = target_of(last[1])
             add_edge(cfg, blk, t, ET.Branch, conditional=True, direct=True)
@@ -511,6 +519,10 @@ def gen_case(rng, nblocks=None, with_data=True, with_funcs=True, nedits=None, cf
     case["edits"] = gen_edits(rng, case, nedits)
     if rng.random() < 0.5:
         case["table_seed"] = rng.randrange(1 << 30)
+    if rng.random() < 0.15:
+        # aux-data tables the module does not carry at all (when it has nothing to put in them)
+        names = ["symbolicExpressionSizes", "alignment", "comments", "padding", "encodings", "cfiDirectives"]
+        case["absent_tables"] = [n for n in names if rng.random() < 0.6] or names
     if nedits is None and rng.random() < 0.12:
         # a call site replaced by code that calls the same function again; a ret replaced by a call of its own function
         untouched = [i for i, d in enumerate(text) if d["kind"] == "code" and d["insns"][-1][0] in ("call", "ret")
@@ -704,8 +716,25 @@ def listing_edits(B, rec, case):
     recs = [r for r in rec.records]
     if len(order) != len(recs):
         return None
+    # Which registered block does a recorded call belong to?  The first call for a block names the block itself, the
+    # following ones the block the previous call returned.  (The order in which apply() visits the blocks is not
+    # assumed here; the requests of one block are applied in (offset, insertion first, registration) order.)
+    by_block = {}
+    for idx, e in order:
+        by_block.setdefault(B.id0[e["block"]], []).append((idx, e))
+    paired, owner, prev_ret = [], None, None
+    for r in recs:
+        b = r["do"]["block"]
+        if not (owner is not None and prev_ret is not None and b == prev_ret and by_block.get(owner)):
+            owner = b
+        if not by_block.get(owner):
+            return None
+        paired.append((by_block[owner].pop(0), r))
+        prev_ret = r.get("ret")
+    # the oracles expect the edits in listing order
+    paired.sort(key=lambda pr: next(k for k, (i, _) in enumerate(order) if i == pr[0][0]))
     out = []
-    for (idx, e), r in zip(order, recs):
+    for (idx, e), r in paired:
         kind = r["do"]["kind"]
         if (e["op"] == "delete") != (kind == "delete"):
             return None
@@ -740,7 +769,7 @@ def listing_edits(B, rec, case):
         boffs = {b["id"]: b["off"] for b in r["before"]["blocks"]}
         led["_pos"] = boffs.get(r["do"]["block"], -1) + r["do"]["offset"]
         led["_base"] = boffs.get(led["block"])
-        led["_rec"] = len(out)          # index of the recorded insert/delete call that carried it out
+        led["_rec"] = next(k for k, x in enumerate(recs) if x is r)   # the recorded insert/delete call that carried it out
         out.append(led)
     return out
 
@@ -764,6 +793,24 @@ def run_listing(case, pre=None):
     B.addr0 = [(b.section.name != ".text", b.address or 0, b.size != 0) for b in B.blocks]
     err = None
     pre_result = pre(B, rec.idm) if pre is not None else None
+    # which blocks can join_byte_intervals align at all?  Of the destination interval none, of every appended
+    # interval the first block that has an alignment entry (recorded right before each join)
+    import gtirb_rewriting.prepare as _prep
+
+    alignable, real_join = set(), _prep.join_byte_intervals
+
+    def join(partition, nop, alignment=None, *a, **k):
+        # judged by the module's own table, not by the mapping prepare_for_rewriting hands over
+        import gtirb_rewriting._auxdata as _A
+
+        table = _A.alignment.get(B.m) or {}
+        for iv in partition[1:]:
+            al = sorted((b for b in iv.blocks if b in table), key=lambda b: (b.offset, b.size, not isinstance(b, gtirb.CodeBlock)))
+            if al:
+                alignable.add(rec.idm.of(al[0]))
+        return real_join(partition, nop, alignment, *a, **k)
+
+    _prep.join_byte_intervals = join
     try:
         register_edits(B, ctx, case.get("edits", []))
         with recording(rec):
@@ -778,8 +825,11 @@ def run_listing(case, pre=None):
         err_line = tb[-1].line
     else:
         err_where = err_line = None
+    finally:
+        _prep.join_byte_intervals = real_join
     B.dump1 = irdump.dump_ir(B.m, rec.idm)
-    out = {"B": B, "rec": rec, "err": err, "pre": pre_result, "err_where": err_where, "err_line": err_line, "before": B.dump0, "after": B.dump1}
+    out = {"B": B, "rec": rec, "err": err, "pre": pre_result, "err_where": err_where, "err_line": err_line, "before": B.dump0, "after": B.dump1,
+           "alignable": alignable}
     out["edits"] = listing_edits(B, rec, case) if err is None else None
     if case.get("lead"):
         out["before"] = strip_lead(out["before"], case["lead"])
